@@ -3197,7 +3197,13 @@ impl<'source> Parser<'source> {
             )?;
             arms.push(arm_node);
 
-            if self.peek_token_with_context(&arm_context).is_none() {
+            // The next arm starts on a new line: a token that follows the arm on the same line
+            // (e.g. the closing bracket of `(match x⏎  1 then 2⏎  else 3)`) ends the expression.
+            if !matches!(
+                self.peek_next_token_on_same_line(),
+                Some(Token::NewLine)
+            ) || self.peek_token_with_context(&arm_context).is_none()
+            {
                 break;
             }
 
@@ -3356,7 +3362,13 @@ impl<'source> Parser<'source> {
             )?;
             arms.push(arm_node);
 
-            if self.peek_token_with_context(&arm_context).is_none() {
+            // The next arm starts on a new line: a token that follows the arm on the same line
+            // (e.g. the closing bracket of `(match x⏎  1 then 2⏎  else 3)`) ends the expression.
+            if !matches!(
+                self.peek_next_token_on_same_line(),
+                Some(Token::NewLine)
+            ) || self.peek_token_with_context(&arm_context).is_none()
+            {
                 break;
             }
 
